@@ -362,12 +362,20 @@ func FilterDelegate(p *core.Prog, r *core.Report) {
 			}
 		}
 		good := false
-		if lit != nil && len(lit.Body.List) == 1 && lit.Type.Params.NumFields() == 1 {
-			if rs, ok := lit.Body.List[0].(*ast.ReturnStmt); ok && len(rs.Results) == 1 {
-				if c, ok := ast.Unparen(rs.Results[0]).(*ast.CallExpr); ok && core.IsCallTo(info, c, core.PkgGts+"."+x.pred) && len(c.Args) == 3 {
+		if lit != nil && len(lit.Body.List) >= 1 && lit.Type.Params.NumFields() == 1 && len(lit.Type.Params.List[0].Names) == 1 {
+			// single-definition locals in front of the return are looked through
+			simple := true
+			for _, st := range lit.Body.List[:len(lit.Body.List)-1] {
+				if as, ok := st.(*ast.AssignStmt); !ok || as.Tok != token.DEFINE {
+					simple = false
+				}
+			}
+			lasg := core.Assigns(info, lit.Body)
+			if rs, ok := lit.Body.List[len(lit.Body.List)-1].(*ast.ReturnStmt); ok && len(rs.Results) == 1 && simple {
+				if c, ok := ast.Unparen(core.Origin(info, lasg, rs.Results[0])).(*ast.CallExpr); ok && core.IsCallTo(info, c, core.PkgGts+"."+x.pred) && len(c.Args) == 3 {
 					fobj := info.Defs[lit.Type.Params.List[0].Names[0]]
-					sel, isSel := ast.Unparen(c.Args[0]).(*ast.SelectorExpr)
-					good = isSel && sel.Sel.Name == "Loc" && core.ObjOf(info, sel.X) == fobj && core.ObjOf(info, c.Args[1]) == params[0] && core.ObjOf(info, c.Args[2]) == params[1]
+					sel, isSel := ast.Unparen(core.Origin(info, lasg, c.Args[0])).(*ast.SelectorExpr)
+					good = isSel && sel.Sel.Name == "Loc" && core.ObjOf(info, sel.X) == fobj && core.ObjOf(info, core.Origin(info, lasg, c.Args[1])) == params[0] && core.ObjOf(info, core.Origin(info, lasg, c.Args[2])) == params[1]
 				}
 			}
 		}
